@@ -111,6 +111,13 @@ func newC13World(prefix string) (*c13world, error) {
 			return nil
 		}
 		return append([]byte{}, iv.Key...)
+	}}).AddIndex(badgerstore.Index{Name: "fix", Key: func(v interface{}) []byte {
+		// a second index whose key is the same for every indexed value: most mutations change the key in the
+		// first index only
+		if !v.(ival).Indexed {
+			return nil
+		}
+		return []byte("c")
 	}})
 	w.qs.OnQueryChange(func(qc store.QueryChange) {
 		w.cbMu.Lock()
